@@ -4,6 +4,7 @@ import (
 	"bytes"
 	"encoding/json"
 	"fmt"
+	"io"
 	"math"
 	"math/rand"
 	"sort"
@@ -827,6 +828,60 @@ func c19RoundTrips(c *Ctx) {
 			got = append(got, int64(v.Int32()))
 		}
 		ids = append(ids, map[string]any{"kind": "NewSlice.Get", "x": want, "got": got})
+	}
+	// host objects: Wrap / Unwrap give back the very object; Unwrap of a value that is not a host object is nil;
+	// a wrapped object passed through script code (parameter, result, slice element, struct field) is still that object
+	{
+		type hostObj struct {
+			goat.Object
+			tag int
+		}
+		o1, o2 := &hostObj{tag: 1}, &hostObj{tag: 2}
+		w1, w2 := goat.Wrap(o1), goat.Wrap(o2)
+		same := func(v goat.Value, o *hostObj) int64 { u, ok := v.Unwrap().(*hostObj); return b2i(ok && u == o) }
+		ids = append(ids, map[string]any{"kind": "Wrap.Unwrap", "x": []int64{1, 1, 0}, "got": []int64{same(w1, o1), same(w2, o2), same(w1, o2)}})
+		ids = append(ids, map[string]any{"kind": "Unwrap.nonobject", "x": []int64{1, 1, 1}, "got": []int64{b2i(goat.Int(3).Unwrap() == nil), b2i(goat.String("s").Unwrap() == nil), b2i(goat.Nil().Unwrap() == nil)}})
+		// loaders given to New run before any script and may register natives and values
+		loaded := 0
+		vm := goat.New(goat.WithStdout(io.Discard), goat.WithLoaders(func(vm *goat.VM) {
+			loaded++
+			vm.Set("host.Obj", w1)
+			vm.Set("host.Pick", goat.NewFunc(2, 1, func(vm *goat.VM, args []goat.Value) goat.Value {
+				if args[0].Bool() {
+					return w1
+				}
+				return w2
+			}))
+		}, func(vm *goat.VM) { loaded += 10 }))
+		goat.VerifSetBudget(100000)
+		rets, err := vm.Eval(fstest.MapFS{}, "w.go", "package main\nimport \"host\"\ntype B struct { O any }\nfunc Thru(x any) any { b := &B{O: x}; s := []any{b.O}; return s[0] }\nfunc Use() (any, any) { return Thru(host.Pick(false, 0)), Thru(host.Obj) }\n")
+		_ = rets
+		var got []int64
+		if err == nil {
+			for _, w := range []goat.Value{w1, w2} {
+				r1, e := vm.Call("main.Thru", 1, w)
+				if e != nil {
+					err = e
+					break
+				}
+				got = append(got, same(r1[0], o1), same(r1[0], o2))
+			}
+		}
+		if err == nil {
+			var r2 []goat.Value
+			r2, err = vm.Call("main.Use", 2)
+			if err == nil && len(r2) == 2 {
+				got = append(got, same(r2[0], o2), same(r2[1], o1))
+			}
+		}
+		goat.VerifSetBudget(-1)
+		if err != nil {
+			c.violate(hashKey("wrap-thru"), "a wrapped host object could not be passed through script code: "+firstLine(err.Error()), map[string]any{"error": err.Error()})
+		} else {
+			ids = append(ids, map[string]any{"kind": "Wrap.throughScript", "x": []int64{1, 0, 0, 1, 1, 1}, "got": got})
+		}
+		ids = append(ids, map[string]any{"kind": "WithLoaders.ran", "x": []int64{11}, "got": []int64{int64(loaded)}})
+		c.Evaluations += 8
 	}
 	badIDs := classifySharded(c, "Trace_Values", "Trace_Values.cfg", ids, 4)
 	for _, idx := range badIDs {
